@@ -871,7 +871,7 @@ inductive Op
   | app (p q : Path)                     -- `p << q;`
   | appLit (p : Path) (l : Lit)          -- `p << x;` template: `*this << (Var)x`
   | resize (p : Path) (n : Nat)
-  | removeAt (p : Path) (i n : Nat)
+  | removeAt (p : Path) (i n : Int)       -- `p.removeAt(i, n);` (the call itself checks `i >= 0 && n > 0`)
   | removeKey (p : Path) (k : Bytes)
   | clear (p : Path)
   | extend (p q : Path)                  -- `p.extend(q);`
@@ -936,7 +936,7 @@ def opBody (guard : Bool) (σ : State) (t : Loc) : Op → Except Err State
     appendAt guard σ t src
   | .appLit _ l => appendAt guard σ t l.toV
   | .resize _ n => resizeV guard σ t n
-  | .removeAt _ i n => removeAtV σ t i n
+  | .removeAt _ i n => if i < 0 ∨ n ≤ 0 then .ok σ else removeAtV σ t i.toNat n.toNat
   | .removeKey _ k => removeKeyV σ t k
   | .clear _ => clearV σ t
   | .extend _ q => do
